@@ -19,6 +19,9 @@ and the invariants of the statement are evaluated through the server's own read 
  (iii) every immutable share is absent or reads back complete (exactly the uploaded bytes:
        same length, no extra bytes);
  (iv)  incoming/ is empty after the restart and nothing unexpected appeared under shares/.
+Outside the crash enumeration: immutable shares of 2^32-1, 2^32 and 2^32+70000 bytes (sparse; the container
+header's length field has 4 bytes) are uploaded, then restart / add_lease / restart / renew_lease / add_lease with
+a known secret / restart: head, tail and reported length must stay what was uploaded.
 The statement is silent about the mutable share being written and about the leases of a lease
 target: those outcomes are counted, not judged.
 """
@@ -526,7 +529,75 @@ def _chunk(chunk, prepared, seed, pre, done_digests):
     return res
 
 
+# ------------------------------------------------------------------ large immutable shares (no crash: restarts only)
+LARGE_SIZES = [2 ** 32 - 1, 2 ** 32, 2 ** 32 + 70000]
+
+
+def large_share_probe(size):
+    """An immutable share whose size does not fit the container header's 4-byte length field, written sparsely
+    (a few KiB really stored) through the server API; then restart / add_lease / restart / renew_lease /
+    restart.  The statement's 'an operation that only adds or renews leases never changes any share's data' and
+    'complete' are judged on the share's head, tail and reported length."""
+    bad = []
+    si = _si("large-%d" % size)
+    head = _payload(0, "large-head", 3000)
+    tail = _payload(0, "large-tail", 3000)
+    with K.Scratch("c29-large") as sd:
+        ss = K.make_server(sd, clock=_clock(T0))
+        r0, c0 = _sec("large", 0)
+        got, w = ss.allocate_buckets(si, r0, c0, [0], size)
+        w[0].write(0, head)
+        w[0].write(size - len(tail), tail)
+        w[0].close()
+        K.cancel_timers()
+
+        def view(ss_):
+            br = ss_.get_buckets(si).get(0)
+            if br is None:
+                return ("absent",)
+            return (br.read(0, len(head)), br.read(size - len(tail), len(tail) + 500), ss_.get_immutable_share_length(si, 0))
+        want = (head, tail, size)
+        steps = [("restart", None)]
+        steps += [("add_lease", _sec("large", 1)), ("restart", None), ("renew_lease", r0), ("add_lease-known", (r0, c0)), ("restart", None)]
+        for name, arg in steps:
+            try:
+                if name == "restart":
+                    ss = K.restart(sd, clock=_clock(T1))
+                elif name == "add_lease":
+                    ss.add_lease(si, arg[0], arg[1])
+                elif name == "add_lease-known":
+                    ss.add_lease(si, arg[0], arg[1])
+                else:
+                    ss.renew_lease(si, arg)
+            except Exception as ex:  # noqa
+                bad.append(("large-share:%s-raised:%s" % (name, type(ex).__name__), "share of %d bytes: %s raised %r" % (size, name, ex)))
+                continue
+            try:
+                v = view(ss)
+            except Exception as ex:  # noqa
+                bad.append(("large-share:unreadable-after-%s:%s" % (name, type(ex).__name__), "share of %d bytes: reading after %s raised %r" % (size, name, ex)))
+                continue
+            if v != want:
+                what = "absent" if v == ("absent",) else "head ok=%r, tail %d bytes ok=%r, reported length %r" % (v[0] == head, len(v[1]), v[1] == tail, v[2])
+                bad.append(("large-share:data-changed-after-%s" % name, "share of %d bytes (sparse): after %s the share reads: %s" % (size, name, what)))
+                break
+        K.cancel_timers()
+    return bad
+
+
+def _large_chunk(chunk):
+    res = common.Result()
+    for size in chunk:
+        res.count("evaluations")
+        res.count("large_share_probes")
+        for sig, msg in large_share_probe(size):
+            res.violation(sig, {"large": size}, msg)
+    return res
+
+
 def replay(case):
+    if "large" in case:
+        return large_share_probe(case["large"])
     seed = case.get("seed", 0)
     with K.Scratch("c29r") as base:
         prepared = os.path.join(base, "prepared")
@@ -574,6 +645,7 @@ def run(tier, seed):
             for i in range(info["n"]):
                 items.append((opi, op, i))
         res.merge(common.pmap(_chunk, items, (prepared, seed, pre, done_digests), chunks=min(len(items), 16), workers=min(4, common.NWORKERS) if len(items) < 1000 else None))
+    res.merge(common.pmap(_large_chunk, LARGE_SIZES, chunks=len(LARGE_SIZES), workers=min(3, common.NWORKERS)))
     ns = sorted(per_op.values())
     cov = {
         "evaluations": res.counts.get("evaluations", 0),
